@@ -198,5 +198,6 @@ pub fn run(tier: &str) -> i32 {
         &["data-for-absent-id-in-non-empty-cache"],
         t0,
         true,
+        None,
     )
 }
